@@ -9,6 +9,7 @@
 package restc
 
 import (
+	"sync/atomic"
 	"context"
 	"fmt"
 	"net"
@@ -98,6 +99,7 @@ type side struct {
 	svc       *deco
 	srv       *http.Server
 	restClose func()
+	nreq      atomic.Int64 // requests sent (each from its own connection and source address)
 }
 
 func newSide(withRest bool, sessionTimeout time.Duration) (*side, error) {
@@ -169,7 +171,10 @@ func (s *side) do(method, path string, cookie *string, body string) (r httpResp)
 		req.Header.Set("Content-Type", "application/json")
 	}
 	req = req.WithContext(ctx)
-	req.RemoteAddr = "10.0.0.9:51234"
+	// every request arrives on a new TCP connection, and a client's connections do not all come from one
+	// source address (multi-homed hosts, NAT pools, proxies): the cookie alone identifies the session
+	nr := s.nreq.Add(1)
+	req.RemoteAddr = fmt.Sprintf("%s:%d", []string{"10.0.0.9", "10.0.1.9", "192.168.7.3"}[nr%3], 50000+nr%10000)
 	if cookie != nil {
 		req.Header.Set("Cookie", cookieName+"="+*cookie)
 	}
